@@ -62,6 +62,9 @@ pub(crate) struct StaticsContext {
     pub(crate) loop_stack: Vec<Option<NodeId>>,
     // most recent function return type while traversing AST
     pub(crate) func_ret_stack: Vec<TypeProv>,
+    // calls whose arguments are being typechecked. A default value is spliced into every call
+    // that omits the argument, so a default value that omits itself would be expanded forever
+    pub(crate) calls_being_checked: HashSet<NodeId>,
 
     // map from interface name to list of its implementations
     pub(crate) interface_impls: HashMap<Rc<InterfaceDef>, Vec<Rc<InterfaceImpl>>>,
@@ -121,6 +124,7 @@ impl StaticsContext {
 
             loop_stack: Default::default(),
             func_ret_stack: Default::default(),
+            calls_being_checked: Default::default(),
 
             interface_impls: Default::default(),
             interface_impl_analyzed: Default::default(),
